@@ -144,6 +144,8 @@ def eye(dim, dtype=None, requires_grad=False, name=None, device=None):
 
 class Tensor:
     
+    __array_ufunc__ = None # numpy operators defer to the reflected operators of Tensor (ndarray + t, ndarray @ t ...)
+    
     def __init__(self, data, children:tuple=(), operation:str=None, requires_grad:bool=False, dtype=None, name:str=None, device:Device=None) -> None:
         """
         Creates a Tensor object from the given data, which is always transformed internally into a numpy array.
